@@ -19,9 +19,9 @@ V1_COMMANDS = ["version", "sign", "getPubKey"]
 
 ACCEPT = "accept"
 
-_HEX = re.compile(r"^(?:[0-9a-fA-F]{2})*$")
-_LOOSE_PATH = re.compile(r"^m(/\d+'?){5}$")
-_STRICT_PATH = re.compile(r"^m(/(0|[1-9][0-9]*)'?){5}$", re.ASCII)
+_HEX = re.compile(r"^(?:[0-9a-fA-F]{2})*\Z")
+_LOOSE_PATH = re.compile(r"^m(/\d+'?){5}\Z")
+_STRICT_PATH = re.compile(r"^m(/(0|[1-9][0-9]*)'?){5}\Z", re.ASCII)
 
 
 def is_int(x):
